@@ -634,6 +634,11 @@ where
         self.base.verif_queue_lens()
     }
 
+    /// Capacities of the (read, write) channels; `None` = unbounded.
+    pub fn verif_queue_caps(&self) -> (Option<usize>, Option<usize>) {
+        self.base.verif_queue_caps()
+    }
+
     /// Describes the complete internal state (see `BaseCache::verif_snapshot`).
     pub fn verif_snapshot(
         &self,
